@@ -4,27 +4,78 @@ import GoldModel.Drive.Dump
 /-!
 `exspec <L> <prefix form>` — evaluate the SPECIFICATION side of the expression round trip
 (`Props/C06Expr.lean`) on tokens produced by the implementation's lexer:
-prefix form  `A tok` | `P tok ex tok` | `B ex tok ex`; output `W=<wfb L> T=<dump of Ex.tree> K=<Ex.toks>`.
+prefix form  `A tok` | `P tok ex tok` | `B ex tok ex` | `U tok ex` (prefix operator) | `Q ex tok` (postfix) |
+`D ex tok ex` (member access) | `C tok tok args tok` (call) | `I tok tok ex tok` (index) | `S tok args tok` (set literal),
+args = `N` | `O ex` | `M ex tok args`; output `W=<wfb L> T=<dump of Ex.tree> K=<Ex.toks>`.
 -/
 namespace Gold.Drive.ExSpecMode
 open Gold Gold.C06 Gold.Drive
 
 /-- prefix parser with fuel (the word count) -/
+def tok1 : List String → Option (Tok × List String)
+  | w :: rest => (parseTok w).map fun t => (t, rest)
+  | [] => none
+
+mutual
 def parseEx : Nat → List String → Option (Ex × List String)
   | 0, _ => none
-  | f+1, "A" :: w :: rest => (parseTok w).map fun t => (Ex.atom t, rest)
-  | f+1, "P" :: w :: rest =>
-    match parseTok w, parseEx f rest with
-    | some lp, some (e, w2 :: rest2) => (parseTok w2).map fun rp => (Ex.paren lp e rp, rest2)
-    | _, _ => none
-  | f+1, "B" :: rest =>
-    match parseEx f rest with
-    | some (l, w :: rest2) =>
-      match parseTok w, parseEx f rest2 with
-      | some op, some (r, rest3) => some (Ex.bin l op r, rest3)
-      | _, _ => none
-    | _ => none
+  | _+1, "A" :: ws => do
+    let (t, ws) ← tok1 ws
+    pure (Ex.atom t, ws)
+  | f+1, "P" :: ws => do
+    let (lp, ws) ← tok1 ws
+    let (e, ws) ← parseEx f ws
+    let (rp, ws) ← tok1 ws
+    pure (Ex.paren lp e rp, ws)
+  | f+1, "B" :: ws => do
+    let (l, ws) ← parseEx f ws
+    let (op, ws) ← tok1 ws
+    let (r, ws) ← parseEx f ws
+    pure (Ex.bin l op r, ws)
+  | f+1, "U" :: ws => do
+    let (op, ws) ← tok1 ws
+    let (e, ws) ← parseEx f ws
+    pure (Ex.pre op e, ws)
+  | f+1, "Q" :: ws => do
+    let (e, ws) ← parseEx f ws
+    let (op, ws) ← tok1 ws
+    pure (Ex.post e op, ws)
+  | f+1, "D" :: ws => do
+    let (l, ws) ← parseEx f ws
+    let (d, ws) ← tok1 ws
+    let (r, ws) ← parseEx f ws
+    pure (Ex.dot l d r, ws)
+  | f+1, "C" :: ws => do
+    let (fn, ws) ← tok1 ws
+    let (lp, ws) ← tok1 ws
+    let (as, ws) ← parseArgs f ws
+    let (rp, ws) ← tok1 ws
+    pure (Ex.call fn lp as rp, ws)
+  | f+1, "I" :: ws => do
+    let (a, ws) ← tok1 ws
+    let (lb, ws) ← tok1 ws
+    let (e, ws) ← parseEx f ws
+    let (rb, ws) ← tok1 ws
+    pure (Ex.index a lb e rb, ws)
+  | f+1, "S" :: ws => do
+    let (lb, ws) ← tok1 ws
+    let (as, ws) ← parseArgs f ws
+    let (rb, ws) ← tok1 ws
+    pure (Ex.set lb as rb, ws)
   | _, _ => none
+def parseArgs : Nat → List String → Option (Args × List String)
+  | 0, _ => none
+  | _+1, "N" :: ws => some (Args.nil, ws)
+  | f+1, "O" :: ws => do
+    let (e, ws) ← parseEx f ws
+    pure (Args.one e, ws)
+  | f+1, "M" :: ws => do
+    let (e, ws) ← parseEx f ws
+    let (c, ws) ← tok1 ws
+    let (rest, ws) ← parseArgs f ws
+    pure (Args.more e c rest, ws)
+  | _, _ => none
+end
 
 def tokStr (t : Tok) : String :=
   s!"{t.kind.name}:{escape t.value}:{t.rng.s.line}:{t.rng.s.col}:{t.rng.e.line}:{t.rng.e.col}"
